@@ -2382,6 +2382,29 @@ fn stream_generators(col: &mut Col, seed: u64) {
     }
 }
 
+/// directed inputs for arithmetic boundaries that neither the repetition families nor the random
+/// generators reach: Punycode payloads whose first delta sits on a u32 / char boundary, as a bare payload
+/// (public punycode functions), as an "xn--" label (IDNA entry points) and as a URL host
+fn stream_directed(col: &mut Col) {
+    let bases = base_urls();
+    let starts = start_urls(false);
+    let payloads = verif_harness::puny_boundary_payloads();
+    let n = payloads.len();
+    for (i, p) in payloads.into_iter().enumerate() {
+        let ins = format!("hex={}", hexb(&p));
+        feed_plain_rows(col, "directed-puny", &ins, &p, None);
+        let mut lab = b"xn--".to_vec();
+        lab.extend_from_slice(&p);
+        let ins2 = format!("hex={}", hexb(&lab));
+        feed_plain_rows(col, "directed-puny", &ins2, &lab, None);
+        // as a host: every 4th payload through all URL rows (level 1 prefixes include "http://")
+        if i % 4 == 0 || col.thorough {
+            feed_url_rows(col, "directed-puny", &ins2, &lab, 1, &bases, &starts);
+        }
+    }
+    col.rep.notes.push(format!("directed-puny: {} Punycode payloads on the u32 / surrogate / char::MAX boundaries of the first delta (0..3 basic code points, offsets -2..+2), bare, as xn-- label and as URL host", n));
+}
+
 fn run_streams(col: &mut Col, seed: u64) {
     let trace = std::env::var("C04_TRACE").is_ok();
     let t0 = Instant::now();
@@ -2397,6 +2420,8 @@ fn run_streams(col: &mut Col, seed: u64) {
     lap("exhaustive");
     stream_generators(col, seed);
     lap("generators");
+    stream_directed(col);
+    lap("directed");
     stream_families(col);
     lap("families");
     stream_blob(col);
